@@ -76,8 +76,12 @@ def start_scenes(jobs, name, threshold, B, core_, maxword, maxverts, simulate=No
     jobs.start("draw/DrawScene.tla", c, name, workers=workers, simulate=simulate, depth=depth)
 
 
-def scenes(jobs, name):
+def scenes(jobs, name, rec=None):
     r = jobs.result(name)
+    if rec is not None:
+        for line in r.stdout.splitlines():
+            if line.startswith('"DEFAULTS '):
+                rec.defaults = json.loads(json.loads(line)[9:])
     seen, out = set(), []
     for e in r.emits:
         k = (dc.word_key(e["word"]), json.dumps(e["verts"]), json.dumps(e.get("win")), e.get("shrink", 0))
@@ -113,6 +117,7 @@ class Recorder:
         self.kinds = {}
         self.bands = {}
         self.small = {}
+        self.defaults = None
         self.threshold = None
 
     def record(self, what, model, scene, closed, outline):
@@ -325,7 +330,10 @@ def replay_scenes(run, rec, scs, rng, point_rate=1.0, batch=40):
         window = grp[0].get("win", dc.DEFAULT_WINDOW)
         for model in dc.MODELS:
             try:
-                d = dc.make_drawing(model, word, via_constructor=rng.random() < 0.5, window=window, rng=rng)
+                d = dc.make_drawing(model, word, via_constructor=rng.random() < 0.5, window=window, rng=rng, defaults=rec.defaults,
+                                    force_default=not run.actions.get("HyperbolicDrawing()"))
+                if getattr(d, "_verif_default", False):
+                    run.actions["HyperbolicDrawing()"] = run.actions.get("HyperbolicDrawing()", 0) + len(grp)
             except Exception as ex:
                 run.violation("drawing:%s:%s" % (model, wk), "raised:drawing", dict(model=model, word=word, error="%s: %s" % (type(ex).__name__, ex)))
                 continue
@@ -364,9 +372,9 @@ def replay_scenes(run, rec, scs, rng, point_rate=1.0, batch=40):
 # ----------------------------------------------------------------------------------------
 # projective drawings
 # ----------------------------------------------------------------------------------------
-def start_proj_scenes(jobs, name, BP, maxverts, simulate=None, depth=None, workers=2):
-    c = core.cfg(constants=dict(BP=BP, MaxVertsP=maxverts),
-                 invariants=["RoundTrip", "Transition", "Collinear", "Invertible", "LinesToLines", "ScaleFree", "EmitProj"])
+def start_proj_scenes(jobs, name, BP, maxverts, simulate=None, depth=None, workers=2, only_default=False, preset=False):
+    c = core.cfg(constants=dict(BP=BP, MaxVertsP=maxverts, OnlyDefault=only_default, Preset=preset),
+                 invariants=["RoundTrip", "Transition", "Collinear", "Invertible", "LinesToLines", "ScaleFree", "CrossingLaws", "EmitProj"])
     jobs.start("draw/DrawProj.tla", c, name, workers=workers, simulate=simulate, depth=depth)
 
 
@@ -398,7 +406,10 @@ def replay_proj(run, rec, scs, rng):
         M = grp[0]["M"]
         try:
             T = P.Transformation(arr(M), column_vectors=True)
-            d = D.ProjectiveDrawing(transform=T, chart_index=chart)
+            # the scenes in chart 0 with the identity are drawn in a drawing constructed WITHOUT arguments
+            d = D.ProjectiveDrawing() if grp[0]["default"] else D.ProjectiveDrawing(transform=T, chart_index=chart)
+            if grp[0]["default"]:
+                run.actions["ProjectiveDrawing()"] = run.actions.get("ProjectiveDrawing()", 0) + len(grp)
         except Exception as ex:
             run.violation("projdrawing:%d:%s" % (chart, mk), "raised:drawing", dict(chart=chart, M=M, error="%s: %s" % (type(ex).__name__, ex)))
             continue
@@ -461,6 +472,9 @@ def replay_proj(run, rec, scs, rng):
             rec.traces.append(dict(model="affine", word=[], verts=s["verts"], closed=n >= 3, shrink=0, events=evs))
             rec.meta.append(dict(what=what, artist=outs[0][0], chart=chart, M=M, rep=s["rep"], spec_affine=want.tolist(), expect=["straight"] * n))
         if chart == 0:
+            for s in grp:
+                if len(s["verts"]) >= 3 and s["cross"]["ok"]:
+                    proj_crossing_single(run, d, M, mk, s)
             by_n = {}
             for s in grp:
                 if len(s["verts"]) >= 3:
@@ -471,6 +485,86 @@ def replay_proj(run, rec, scs, rng):
                 for i in range(0, len(ss) - 1, 6):
                     proj_array(run, rec, d, M, mk, ss[i:i + 6])
         dc.close(d)
+
+
+def crossing_patches(s, pats, xlim, ylim, exact=True, used_out=None):
+    """the patches of a polygon through the line at infinity (spec: DrawProj, CrossInfo): one closed polygon per run of
+    vertices: the run in order, then two dummy vertices, each on the ray continuing the crossing edge beyond the run's end
+    vertex away from the vertex on the other side, outside the window.  Returns None or a description."""
+    aff = np.array([dc.rat2(c) for c in s["aff"]])
+    runs = s["cross"]["runs"]
+    free = list(range(len(pats)))
+    for r in runs:
+        idx = [i - 1 for i in r["verts"]]
+        k = len(idx)
+        found = None
+        for j in free:
+            v = np.asarray(pats[j], float)
+            if len(v) >= 2 and np.abs(v[0] - v[-1]).max() <= 1e-12:
+                v = v[:-1]                                   # matplotlib repeats the first vertex of a closed polygon
+            if len(v) != k + 2:
+                continue
+            name = []
+            for pt in v:
+                dd = np.abs(aff[idx] - pt).max(axis=1)
+                i = int(np.argmin(dd))
+                name.append(i if dd[i] <= 1e-9 * max(1.0, float(np.abs(pt).max())) else -1)
+            if sorted(x for x in name if x >= 0) != list(range(k)) or name.count(-1) != 2:
+                continue
+            found = (j, v, name)
+            break
+        if found is None:
+            return "no patch consists of the run %r (chart points %r) and two more vertices; patches: %r" % (
+                r["verts"], aff[idx].round(6).tolist(), [np.round(np.asarray(q, float), 4).tolist() for q in pats])
+        j, v, name = found
+        free.remove(j)
+        m = len(v)
+        # rotate so that the two dummies come last
+        st = [t for t in range(m) if name[t] == -1 and name[(t + 1) % m] == -1]
+        if not st:
+            return "the two extra vertices of the patch of the run %r are not consecutive: %r" % (r["verts"], np.round(v, 4).tolist())
+        rot = [(st[0] + 2 + t) % m for t in range(m)]
+        seq = [name[t] for t in rot[:k]]
+        d_after_last, d_before_first = v[rot[k]], v[rot[k + 1]]      # neighbours of seq[-1] and of seq[0]
+        if seq == list(range(k)):
+            ends = [(idx[-1], r["after"] - 1, d_after_last), (idx[0], r["before"] - 1, d_before_first)]
+        elif seq == list(range(k))[::-1]:
+            ends = [(idx[0], r["before"] - 1, d_after_last), (idx[-1], r["after"] - 1, d_before_first)]
+        else:
+            return "the patch of the run %r does not list its vertices in order: %r" % (r["verts"], np.round(v, 4).tolist())
+        for e, f, dm in ends:
+            a, b = aff[e], aff[f]
+            u = (a - b) / np.linalg.norm(a - b)
+            off = abs((dm - a) @ np.array([-u[1], u[0]]))
+            along = float((dm - a) @ u)
+            if off > 1e-9 * max(1.0, float(np.abs(dm).max())) or along <= 0:
+                return ("dummy vertex %r next to vertex %d (%r) is not on the ray continuing the crossing edge from vertex %d (%r) beyond it" % (
+                    np.round(dm, 4).tolist(), e + 1, a.round(4).tolist(), f + 1, b.round(4).tolist()))
+            if xlim[0] < dm[0] < xlim[1] and ylim[0] < dm[1] < ylim[1]:
+                return "dummy vertex %r next to vertex %d lies inside the window: the unbounded piece is cut off" % (np.round(dm, 4).tolist(), e + 1)
+    if used_out is not None:
+        used_out.extend(j for j in range(len(pats)) if j not in free)
+    if free and exact:
+        return "patches that belong to no run: %r" % [np.round(np.asarray(pats[j], float), 4).tolist() for j in free]
+    return None
+
+
+def proj_crossing_single(run, d, M, mk, s):
+    """one polygon through the line at infinity of chart 0, drawn with assume_affine=False"""
+    from geometry_tools import projective as P
+    key = "projcross:%s:%d*%s" % (mk, s["rep"], json.dumps(s["verts"], separators=(",", ":")))
+    run.case(key=key, action="proj_polygon[through infinity, assume_affine=False]")
+    try:
+        d.draw_polygon(P.Polygon(arr(s["verts"]) * float(s["rep"])), assume_affine=False)
+        npaths = sum(len(c.get_paths()) for c in d.ax.collections)
+        pats = [np.asarray(p.get_xy(), float) for p in d.ax.patches]
+        bad = "expected no polygon of the collection and two patches, found %d and %d" % (npaths, len(pats)) if npaths or len(pats) != 2 else \
+            crossing_patches(s, pats, d.xlim, d.ylim)
+    except Exception as ex:
+        bad = "%s: %s" % (type(ex).__name__, ex)
+    dc.clear(d)
+    if bad:
+        run.violation(key, "projective.polygon_through_infinity_two_unbounded_pieces", dict(M=M, polygon=[s["rep"], s["verts"]], spec=s["cross"], chart_points=[dc.rat2(c).tolist() for c in s["aff"]], observed=bad))
 
 
 def proj_array(run, rec, d, M, mk, batch):
@@ -504,14 +598,17 @@ def proj_array(run, rec, d, M, mk, batch):
         evs = dc.outline_events("affine", geom, True, o[1], o[2])
         rec.traces.append(dict(model="affine", word=[], verts=s["verts"], closed=True, shrink=0, events=evs))
         rec.meta.append(dict(what="proj_polygon[array, assume_affine=False]", artist=o[0], chart=0, M=M, rep=s["rep"], expect=["straight"] * n))
-    allp = np.vstack(pats) if pats else np.zeros((0, 2))
+    # every polygon through infinity: its two patches (found among all patches by their vertex runs: the order is free)
+    remaining = list(pats)
     for s in crossing:
-        for v, c in zip(s["verts"], s["aff"]):
-            w = dc.rat2(c)
-            if not len(allp) or np.abs(allp - w).max(axis=1).min() > 1e-9 * max(1.0, float(np.abs(w).max())):
-                run.violation(key + ":crossing:%s" % json.dumps(s["verts"], separators=(",", ":")), "projective.polygon_through_infinity_at_chart_coordinates",
-                              dict(M=M, polygon=[s["rep"], s["verts"]], vertex=v, spec=w.tolist(), observed="no unbounded patch has a vertex there"))
-                break
+        if not s["cross"]["ok"]:
+            continue
+        used = []
+        bad = crossing_patches(s, remaining, d.xlim, d.ylim, exact=False, used_out=used)
+        if bad:
+            run.violation(key + ":crossing:%s" % json.dumps(s["verts"], separators=(",", ":")), "projective.polygon_through_infinity_two_unbounded_pieces",
+                          dict(M=M, polygon=[s["rep"], s["verts"]], spec=s["cross"], chart_points=[dc.rat2(c).tolist() for c in s["aff"]], observed=bad))
+        remaining = [q for j, q in enumerate(remaining) if j not in used]
 
 
 def wrong_dimension(run, dims):
@@ -670,12 +767,14 @@ def run(run, replay=None):
         "objects: points of the perfect-square integer universe (box entries <= 7, special and band points <= 29; <= 60 after the transformation), polygons with 3..8 "
         "distinct vertices (interior and ideal, convex or not), segments, geodesics, horospheres; transformations: words of length <= 2 in the "
         "exact atoms of HypIso",
-        "half-plane objects inside the drawing's window (default |x| <= 6, y <= 8; custom xlim/ylim (4,14)x8 and (-20,20)x12 with objects outside the "
+        "half-plane objects inside the drawing's window, or (scenes_margin) up to 9% of its width outside it on either side (default |x| <= 6, y <= 8; custom xlim/ylim (4,14)x8 and (-20,20)x12 with objects outside the "
         "default window), no vertex at infinity; radius = threshold exactly excluded; model given as alias string (any case) or enum member",
         "artists of a composite are read in the order of its flattened index; Bezier approximation of circles by matplotlib trusted to 1e-4 r",
         "small polygons (edges 5e-6 .. 4e-2 in model coordinates: the polygon shrunk by Lox(1, q), q <= 10^5): path structure and kinds of "
         "the pieces only, vertices named by exact half-plane coordinates / the library's chart map (C01), tolerances relative to the shortest edge",
-        "not covered: rasterisation, styles, 3-D drawings, draw_nonaff_polygon, horoarcs, boundary arcs, CP1 drawings",
+        "projective polygons through the line at infinity (assume_affine=False, chart 0): exactly two crossing edges; four fixed polygons with long and "
+        "short crossing edges plus those met by the simulation; the distance of the dummy vertices is free beyond 'outside the window'",
+        "not covered: rasterisation, styles, 3-D drawings, horoarcs, boundary arcs, CP1 drawings",
     ]
     run.extra["radius_threshold"] = threshold
     jobs = TLCJobs(run)
@@ -685,6 +784,7 @@ def run(run, replay=None):
     if quick:
         plan = [dict(name="scenes_small", B=4, core_=7, maxword=0, maxverts=4, shrinks=(100, 1000, 10000, 100000)),
                 dict(name="scenes_pairs", B=5, core_=2, maxword=0, maxverts=2),
+                dict(name="scenes_margin", B=4, core_=8, maxword=0, maxverts=3),
                 dict(name="scenes_windows", B=5, core_=5, maxword=0, maxverts=3),
                 dict(name="scenes_words", B=5, core_=6, maxword=2, maxverts=2),
                 dict(name="scenes_triangles", B=5, core_=1, maxword=0, maxverts=3),
@@ -695,13 +795,17 @@ def run(run, replay=None):
                 dict(name="scenes_triangles", B=7, core_=2, maxword=0, maxverts=3),
                 dict(name="scenes_pairs_words", B=5, core_=1, maxword=1, maxverts=2),
                 dict(name="scenes_windows", B=5, core_=5, maxword=0, maxverts=4),
+                dict(name="scenes_margin", B=4, core_=8, maxword=0, maxverts=4),
                 dict(name="scenes_words", B=5, core_=6, maxword=3, maxverts=2),
                 dict(name="scenes_bands", B=5, core_=4, maxword=1, maxverts=3),
                 dict(name="scenes_sim", B=7, core_=3, maxword=2, maxverts=8, simulate=150, depth=11)]
     if quick:
-        pplan = [dict(name="proj_sim", BP=2, maxverts=6, simulate=10, depth=7)]
+        pplan = [dict(name="proj_through_infinity", BP=1, maxverts=3, preset=True),
+                 dict(name="proj_default", BP=2, maxverts=5, simulate=4, depth=6, only_default=True),
+                 dict(name="proj_sim", BP=2, maxverts=6, simulate=10, depth=7)]
     else:
-        pplan = [dict(name="proj_triangles", BP=1, maxverts=3), dict(name="proj_sim", BP=3, maxverts=8, simulate=100, depth=9)]
+        pplan = [dict(name="proj_through_infinity", BP=1, maxverts=3, preset=True),
+                 dict(name="proj_default", BP=2, maxverts=6, simulate=30, depth=7, only_default=True), dict(name="proj_triangles", BP=1, maxverts=3), dict(name="proj_sim", BP=3, maxverts=8, simulate=100, depth=9)]
     W = 2 if quick else 3
     for p in plan:
         start_scenes(jobs, threshold=threshold, workers=W, **p)
@@ -710,7 +814,7 @@ def run(run, replay=None):
     jobs.result("DrawPath")
     nsc = 0
     for p in plan:
-        scs = scenes(jobs, p["name"])
+        scs = scenes(jobs, p["name"], rec)
         nsc += len(scs)
         if p["core_"] == 7:
             replay_small(run, rec, scs, rng)
@@ -748,6 +852,8 @@ def run(run, replay=None):
         run.extra["projective_scenes"] = run.extra.get("projective_scenes", 0) + len(pscs)
         if pscs:
             run.sample(dict(kind="projective scene", **pscs[len(pscs) // 2]))
+    if not run.actions.get("ProjectiveDrawing()") or not run.actions.get("HyperbolicDrawing()"):
+        raise core.MachineryFailure("vacuous: no scene was drawn in a drawing constructed without arguments")
     wrong_dimension(run, dims)
     own_axes(run)
     dc.validate_and_report(run, rec.traces, rec.meta, threshold)
